@@ -1,6 +1,7 @@
 package props
 
 import (
+	"encoding/json"
 	"fmt"
 	"strings"
 
@@ -180,13 +181,27 @@ var c05TypeVals = []TV{
 	{K: "float32"}, {K: "float64"}, {K: "string"}, {K: "nil"}, tvS("false"),
 }
 
-func c05NTypes() int { return len(c05TypeVals) * 3 * 2 }
+func c05NTypes() int { return len(c05TypeVals) * 5 * 2 }
+
+// c05WholeJSON: the string is a complete JSON object or array (props written as
+// JSON in the template are decoded; whether such a string is one is not judged).
+func c05WholeJSON(s string) bool {
+	t := strings.TrimSpace(s)
+	if !strings.HasPrefix(t, "{") && !strings.HasPrefix(t, "[") {
+		return false
+	}
+	var out any
+	return json.Unmarshal([]byte(t), &out) == nil
+}
 
 func c05GenTypes(i int) c05Case {
 	outer := i%2 == 1
 	i /= 2
-	rf := i % 3
-	v := c05TypeVals[i/3]
+	rf := i % 5
+	v := c05TypeVals[i/5]
+	if rf >= 3 && (v.K != "string" || c05WholeJSON(v.S) || strings.TrimSpace(v.S) != v.S || v.S == "") {
+		rf -= 3 // the static and the interpolated form: strings only
+	}
 	c := c05Case{Part: "types", Entry: []string{"tpl", "vue"}[i%2], Data: map[string]TV{}}
 	a := c05Attr{N: "pa", F: "bound", R: "v"}
 	switch rf {
@@ -198,6 +213,11 @@ func c05GenTypes(i int) c05Case {
 	case 2:
 		c.Data["o"] = tvMap(map[string]TV{"k": v})
 		a.R = "o.k"
+	case 3: // written in the template
+		a = c05Attr{N: "pa", F: "static", S: v.S}
+	case 4: // interpolated from data
+		c.Data["v"] = v
+		a = c05Attr{N: "pa", F: "interp", S: "", R: "v"}
 	}
 	if outer {
 		c.Data["pa"] = tvS("OUTpa")
